@@ -57,3 +57,96 @@ Proof.
   split; [apply wedge_reachable|]. intros tr s' Hnd H.
   apply (wedge_forever A B f d a b tr (wedge0 A B a b) s'); [left; reflexivity|exact Hnd|exact H].
 Qed.
+
+(** ** what an accepting verdict of the event walk means *)
+Definition ev4 := (nat * nat * nat * nat)%type.
+Definition e_actor (e : ev4) : nat := match e with (a, _, _, _) => a end.
+Definition e_code (e : ev4) : nat := match e with (_, c, _, _) => c end.
+Definition e_pulled (e : ev4) : nat := match e with (_, _, _, p) => p end.
+Definition is_recv (e : ev4) : bool := Nat.eqb (e_code e) 10 || Nat.eqb (e_code e) 14.
+Definition count_recv (l : list ev4) : nat := length (filter is_recv l).
+Definition is_got (e : ev4) : bool := Nat.eqb (e_code e) 1.
+
+Lemma count_recv_cons x l : count_recv (x :: l) = (if is_recv x then 1 else 0) + count_recv l.
+Proof. unfold count_recv. cbn [filter]. destruct (is_recv x); reflexivity. Qed.
+
+(** before the drop: every event's pulled count is within the bound of what was consumed so far *)
+Lemma walk_before bf B E : forall pre evs consumed gots e post,
+  walk bf B E evs consumed None gots = true ->
+  evs = pre ++ e :: post -> (forall x, In x pre -> e_code x <> 11) ->
+  e_pulled e <= consumed + count_recv (pre ++ [e]) + B /\ e_code e <> 13.
+Proof.
+  induction pre as [|x pre IH]; intros evs consumed gots e post H -> Hnd.
+  - cbn [app] in *. destruct e as [[[a c] i] p]. cbn [walk] in H.
+    apply andb_true_iff in H as [H _]. apply andb_true_iff in H as [H13 Hp].
+    apply Nat.leb_le in Hp. apply negb_true_iff, Nat.eqb_neq in H13.
+    rewrite count_recv_cons. unfold count_recv. cbn [filter length]. unfold is_recv. cbn [e_code e_pulled].
+    split; [|exact H13]. destruct (Nat.eqb c 10 || Nat.eqb c 14)%bool; lia.
+  - cbn [app] in H. destruct x as [[[a c] i] p]. cbn [walk] in H.
+    apply andb_true_iff in H as [_ H].
+    assert (Hc : Nat.eqb c 11 = false).
+    { apply Nat.eqb_neq. apply (Hnd (a, c, i, p)). left. reflexivity. }
+    rewrite Hc in H.
+    destruct (IH _ _ _ e post H eq_refl) as [Hb H13].
+    { intros y Hy. apply Hnd. right. exact Hy. }
+    split; [|exact H13]. cbn [app]. rewrite count_recv_cons. unfold is_recv at 1. cbn [e_code].
+    destruct (Nat.eqb c 10 || Nat.eqb c 14)%bool; lia.
+Qed.
+
+(** after the drop: nothing is received any more, the total number of pulls stays within the
+    allowance, a producer never ignores the failed send (Buffered), and no actor pulls twice *)
+Lemma walk_after bf B E p0 : forall evs consumed gots,
+  walk bf B E evs consumed (Some p0) gots = true ->
+  (forall e, In e evs -> e_pulled e <= p0 + E /\ e_code e <> 13 /\ is_recv e = false /\ (bf = true -> e_code e <> 5))
+  /\ NoDup (map e_actor (filter is_got evs))
+  /\ (forall e, In e evs -> is_got e = true -> ~ In (e_actor e) gots).
+Proof.
+  induction evs as [|[[[a c] i] p] evs IH]; intros consumed gots H.
+  - cbn. repeat split; try constructor; intros; contradiction.
+  - cbn [walk] in H.
+    apply andb_true_iff in H as [H Hrec]. apply andb_true_iff in H as [H Hg]. apply andb_true_iff in H as [H Hp].
+    apply andb_true_iff in H as [H H14]. apply andb_true_iff in H as [H H10]. apply andb_true_iff in H as [H13 H5].
+    apply Nat.leb_le in Hp. apply negb_true_iff in H13, H10, H14, H5. apply Nat.eqb_neq in H13.
+    destruct (IH _ _ Hrec) as (IH1 & IH2 & IH3).
+    split; [|split].
+    + intros e [<-|Hin]; [|apply IH1, Hin]. unfold is_recv. cbn [e_code e_pulled]. rewrite H10, H14.
+      repeat split; auto. intros -> Hc. subst c. cbn in H5. discriminate.
+    + cbn [filter]. unfold is_got at 1. cbn [e_code]. destruct (Nat.eqb c 1) eqn:E1; [|exact IH2].
+      cbn [map e_actor]. constructor; [|exact IH2]. intros Hin.
+      apply in_map_iff in Hin as (e & Ha & He). apply filter_In in He as [He Hg1].
+      apply (IH3 e He Hg1). rewrite Ha. left. reflexivity.
+    + intros e [<-|Hin] Hg1.
+      * unfold is_got in Hg1. cbn [e_code e_actor] in *. rewrite Hg1 in Hg.
+        apply negb_true_iff in Hg. intros Hin. assert (existsb (Nat.eqb a) gots = true).
+        { apply existsb_exists. exists a. split; [exact Hin|apply Nat.eqb_refl]. } congruence.
+      * intros Hin'. apply (IH3 e Hin Hg1). destruct (Nat.eqb c 1); [right; exact Hin'|exact Hin'].
+Qed.
+
+(** the drop event itself is judged by the before-drop rule; the events after it by [walk_after] *)
+Lemma walk_split bf B E : forall pre evs consumed gots d post,
+  walk bf B E evs consumed None gots = true ->
+  evs = pre ++ d :: post -> (forall x, In x pre -> e_code x <> 11) -> e_code d = 11 ->
+  exists consumed', walk bf B E post consumed' (Some (e_pulled d)) gots = true.
+Proof.
+  induction pre as [|x pre IH]; intros evs consumed gots d post H -> Hnd Hd.
+  - cbn [app] in H. destruct d as [[[a c] i] p]. cbn [e_code e_pulled] in *. subst c. cbn [walk] in H.
+    apply andb_true_iff in H as [_ H]. cbn in H. eexists. exact H.
+  - cbn [app] in H. destruct x as [[[a c] i] p]. cbn [walk] in H. apply andb_true_iff in H as [_ H].
+    assert (Hc : Nat.eqb c 11 = false).
+    { apply Nat.eqb_neq. apply (Hnd (a, c, i, p)). left. reflexivity. }
+    rewrite Hc in H. eapply IH; eauto. intros y Hy. apply Hnd. right. exact Hy.
+Qed.
+
+Lemma walk_sound_l bf B E evs : walk bf B E evs 0 None [] = true ->
+  (forall pre e post, evs = pre ++ e :: post -> (forall x, In x pre -> e_code x <> 11) ->
+     e_pulled e <= count_recv (pre ++ [e]) + B /\ e_code e <> 13)
+  /\ (forall pre d post, evs = pre ++ d :: post -> (forall x, In x pre -> e_code x <> 11) -> e_code d = 11 ->
+        (forall e, In e post -> e_pulled e <= e_pulled d + E /\ e_code e <> 13 /\ is_recv e = false
+                                /\ (bf = true -> e_code e <> 5))
+        /\ NoDup (map e_actor (filter is_got post))).
+Proof.
+  intros H. split.
+  - intros pre e post Hev Hnd. destruct (walk_before bf B E pre evs 0 [] e post H Hev Hnd) as [H1 H2]. split; [lia|exact H2].
+  - intros pre d post Hev Hnd Hd. destruct (walk_split bf B E pre evs 0 [] d post H Hev Hnd Hd) as (c' & Hw).
+    destruct (walk_after bf B E (e_pulled d) post c' [] Hw) as (A1 & A2 & _). auto.
+Qed.
